@@ -4,6 +4,7 @@ Statements only; helper lemmas live in Proofs/.
 -/
 import NormModel.Proofs.Reports
 import NormModel.Proofs.LexTotal
+import NormModel.Properties.C09
 import NormModel.Generated.Catalogue
 namespace Norm.C08
 open Norm
@@ -106,7 +107,51 @@ theorem lexer_diags_have_highlight (u : Uni) (src : List Char) (r : LexResult) (
     simp only at hd
     rw [h5] at hd
     simp only [List.nil_append] at hd
-    exact h6 d hd
+    exact (h6 d hd).hasHl
+
+/-- number of lines of a text: one per newline, plus the last line when it does not end with one -/
+def numLines (src : List Char) : Nat :=
+  src.count '\n' + (if src = [] ∨ src.getLast? = some '\n' then 0 else 1)
+
+/-- **The printed position of every lexical diagnostic lies inside the file**: `1 ≤ line ≤ number of lines` and
+`column ≥ 1`, for every source text (from `C09.diag_positions`: the position is that of a character of the file). -/
+theorem lexer_diag_inside_file (u : Uni) (src : List Char) (r : LexResult) (h : lex u src = .ok r) :
+    ∀ d ∈ r.diags, ∃ hl tl, d.highlights = hl :: tl ∧ 1 ≤ hl.line ∧ hl.line ≤ numLines src ∧ 1 ≤ hl.col := by
+  intro d hd
+  obtain ⟨hl, tl, k, e1, e2, e3⟩ := C09.diag_positions u src r h d hd
+  refine ⟨hl, tl, e1, ?_⟩
+  have hline := advPos_line_eq (1, 1) (src.take k)
+  have hcol := advPos_col_pos (1, 1) (src.take k) (by decide)
+  unfold Spec.visualPos at e3
+  have h1 : hl.line = (Spec.advPos (1, 1) (src.take k)).1 := congrArg Prod.fst e3
+  have h2 : hl.col = (Spec.advPos (1, 1) (src.take k)).2 := congrArg Prod.snd e3
+  simp only at hline
+  have hsplit : src.count '\n' = (src.take k).count '\n' + (src.drop k).count '\n' := by
+    conv => lhs; rw [← List.take_append_drop k src]
+    exact List.count_append
+  have hne : src.drop k ≠ [] := by
+    intro e
+    have := congrArg List.length e
+    simp at this; omega
+  have hsrc : src ≠ [] := by intro e; subst e; simp at e2
+  unfold numLines
+  by_cases hc : (src.drop k).count '\n' = 0
+  · have hnot : ¬ (src = [] ∨ src.getLast? = some '\n') := by
+      rintro (e | e)
+      · exact hsrc e
+      · have hl2 : src.getLast? = (src.drop k).getLast? := by
+          conv => lhs; rw [← List.take_append_drop k src]
+          rw [List.getLast?_append]
+          cases hg : (src.drop k).getLast? with
+          | none => exact absurd (List.getLast?_eq_none_iff.mp hg) hne
+          | some x => rfl
+        rw [hl2] at e
+        have hmem : '\n' ∈ src.drop k := List.mem_of_getLast? e
+        have := List.count_pos_iff.mpr hmem
+        omega
+    simp only [hnot, ↓reduceIte]
+    omega
+  · split <;> omega
 
 /-- Non-vacuity: a concrete list with ties, several highlights and a Notice. -/
 def exampleDiags : List Diag := [
